@@ -3,7 +3,7 @@ PROP = 'C13'
 LEAN_MODULES = ['FalconModel.Multipart', 'FalconModel.PeekProofs', 'FalconModel.MultipartProofs']
 DRIVERS = ['mpdriver']
 THEOREMS = [
-    # C13 has no cursor-level theorem of its own yet (see PARTIAL).  Mp.next (FalconModel/Multipart.lean) is written
+    # The cursor-level parse/encode theorems are not proved yet (see PARTIAL).  Mp.next (FalconModel/Multipart.lean) is written
     # directly over the polymorphic reader model Rd.R; every reader call it makes is covered by one of these refinement
     # theorems (FalconModel/ReaderProofs, ReadUntilProofs, RULoop, ReaderHistory, PeekProofs), which is where the
     # independence from transport chunking comes from.
@@ -50,7 +50,7 @@ RULE = ('(a) correspondence: forms of 0-4 parts over {a,b,CR,LF,-,:,space,bounda
         'optional preamble/epilogue/final CRLF, plain / UTF-8 / RFC 5987 filenames, ignored extra headers, header-name case; x transport chunking (1 byte .. whole, two-chunk splits at every offset for small bodies) x reader chunk size '
         'x per-part consumption script (skip, peek, partial read, read loop, full read, get_data/data, get_text/text, get_media/media, read_until, readline|async-iteration, pipe, exhaust) x limits at size-1/size/size+1 '
         'x entry point (handler.deserialize[_async] on a raw stream / BufferedReader / BoundedStream, Request.get_media, full App call); '
-        '(c) all (thorough) or sampled (quick) single-byte deletions/substitutions/insertions and truncations of valid bodies, judged by a flat-buffer reference splitter; '
+        '(c) random single/double edits (delete, substitute, insert, truncate - also by Content-Length only) of valid bodies, plus for small bodies every single-byte deletion, every truncation and every substitution by each of CR LF - : ; space " = NUL 0xff 0xc3 A * (3 of them per position in quick), judged by a flat-buffer reference splitter; '
         'non-trivial = at least one part was yielded or a parse error was raised; distinct = distinct (body, boundary, options, script, chunking, path)')
 PARTIAL = ('The cursor-level theorems of DESIGN.md section 8/C13 (parse_encode, consumption_independent, headers_size_limit_exact, buffer_limit_exact, '
            'invalid_is_parse_error_only, sync_async_agree) are NOT yet proved in Lean; part_count_limit_exact is proved at the level of the model Mp.next (for arbitrary streams), '
@@ -78,9 +78,12 @@ def _example(ctx):
     parts = [{'block': b'Content-Disposition: form-data; name="a"', 'data': b'\r\n---x.'},
              {'block': b"content-type: application/json\r\nContent-Disposition: form-data; name=\"f\"; filename*=UTF-8''%E2%82%AC.json", 'data': b'{"k": 1}'}]
     body = _encode(parts, b, b'preamble\r\n', b'\r\nepilogue')
-    form = MultipartFormHandler().deserialize(io.BytesIO(body), 'multipart/form-data; boundary="-x.y"', len(body))
-    ctx.sample({'oracle_example': {'body': body, 'boundary': b, 'reference_split': _ref_split(body, b, 8192, 64),
-                                   'implementation': [[p.name, p.filename, p.content_type, p.get_data()] for p in form]}})
+    try:
+        form = MultipartFormHandler().deserialize(io.BytesIO(body), 'multipart/form-data; boundary="-x.y"', len(body))
+        impl = [[p.name, p.filename, p.content_type, p.get_data()] for p in form]
+    except Exception as e:  # noqa  (only an illustration: the oracles below judge)
+        impl = f'raised {type(e).__name__}'
+    ctx.sample({'oracle_example': {'body': body, 'boundary': b, 'reference_split': _ref_split(body, b, 8192, 64), 'implementation': impl}})
 
 
 import contextlib
@@ -252,7 +255,7 @@ def _corr(ctx):
                     'max_body_part_headers_size': maxhdr, 'max_body_part_count': maxcount, 'history': hist})
         ctx.seen(('cs', newline, tuple(hist)), nontriv)
 
-    for _ in range(ctx.n(12000, 240000)):
+    for _ in range(ctx.n(12000, 160000)):
         sync_case()
     sess.finish()
 
@@ -331,7 +334,7 @@ def _corr(ctx):
         ctx.seen(('ca', newline, tuple(hist), tuple(len(p) for p in pieces)), nontriv)
 
     async def amain():
-        for _ in range(ctx.n(8000, 160000)):
+        for _ in range(ctx.n(8000, 100000)):
             await async_case()
     asyncio.run(amain())
     asess.finish()
@@ -865,7 +868,7 @@ def _oracle(ctx):
 
     async def main():
         # (b) reference-encoded forms
-        for _ in range(ctx.n(9000, 200000)):
+        for _ in range(ctx.n(9000, 120000)):
             b, parts, body, cth = valid_form()
             o, tag = near_limits(parts)
             script = _script(rnd, parts)
@@ -875,7 +878,7 @@ def _oracle(ctx):
             await one('valid', body, b, cth, o, script, expected_valid(parts, o, script), _chunk_plan(rnd, len(body)), False,
                       {'parts': [{k: p[k] for k in ('name', 'filename', 'ct', 'kind')} | {'len': len(p['data'])} for p in parts]})
         # every two-chunk split and every uniform chunk size of small bodies
-        for _ in range(ctx.n(15, 320)):
+        for _ in range(ctx.n(15, 200)):
             b = rnd.choice([b'b', b'XyZ', b'-', b'0123456789'])
             parts = _make_parts(rnd, b, nmax=3, big=False)[:3]
             for p in parts:
@@ -889,7 +892,7 @@ def _oracle(ctx):
                 await one('valid', body, b, cth, DEFAULT, script, exp, ('uniform', x), False, {'exhaustive_splits': True})
         # (c) damaged bodies
         repl = b'\r\n-:; "=\x00\xff\xc3A' + b'*'
-        for _ in range(ctx.n(9000, 160000)):
+        for _ in range(ctx.n(9000, 100000)):
             b, parts, body, cth = valid_form(big=False)
             edits = []; feed = None
             bb = bytearray(body)
@@ -904,7 +907,7 @@ def _oracle(ctx):
                     if rnd.random() < 0.5: feed = full
             await damaged(bytes(bb), b, cth, edits, feed=feed if (feed is not None and feed.startswith(bytes(bb))) else None)
         # all single-byte deletions and substitutions of small valid bodies
-        for _ in range(ctx.n(5, 100)):
+        for _ in range(ctx.n(5, 60)):
             b = rnd.choice([b'b', b'XyZ', b'-', b'BOUNDARY'])
             parts = _make_parts(rnd, b, nmax=2, big=False)[:2]
             for p in parts:
